@@ -49,7 +49,13 @@ func plan(tier string, seed int64) []driver.Case {
 			for k := 1; k < len(attempts); k++ {
 				cases = append(cases, driver.Case{ID: id + fmt.Sprintf("/park=%d", k), P: map[string]string{"op": op, "cfg": cfg, "attempts": strings.Join(attempts, "|"), "async": "true", "cancel": fmt.Sprint(cancelAt), "park": fmt.Sprint(k)}})
 			}
+			// … and inside the release itself: the subscription of attempt k is already marked closed,
+			// its finalizers (the source's teardown among them) have not run yet
+			cases = append(cases, driver.Case{ID: id + "/park-unsub=1", P: map[string]string{"op": op, "cfg": cfg, "attempts": strings.Join(attempts, "|"), "async": "true", "cancel": fmt.Sprint(cancelAt), "park": "1", "parkpoint": "subscription.unsub.unlocked"}})
 		}
+	}
+	for _, what := range []string{"subscription", "subscriber"} {
+		cases = append(cases, driver.Case{ID: "primitive/wait-during-unsubscribe/" + what, P: map[string]string{"op": "primitive", "what": what}})
 	}
 	for n := 1; n <= maxAttempts; n++ {
 		for _, at := range seqs(n) {
@@ -239,8 +245,61 @@ func model(op, cfg string, at []string, cancelAt int) expect {
 	return e
 }
 
+// runPrimitive: every operator of this property moves on to the next attempt when Wait() on the
+// previous attempt's subscription returns. While another goroutine is inside Unsubscribe of that
+// subscription - already marked closed, finalizers (the source's teardown among them) not yet run -
+// Wait must not return: otherwise the next attempt starts before the previous one is released.
+func runPrimitive(c driver.Case) driver.Result {
+	res := driver.Result{Verdict: driver.Held, Nontrivial: true, Sig: "primitive/" + c.Get("what")}
+	var released atomic.Bool
+	mk := func() ro.Subscription {
+		if c.Get("what") == "subscriber" {
+			sub := ro.NewSubscriber[int](rec.Raw[int](rec.New("p")))
+			sub.Add(func() { released.Store(true) })
+			return sub
+		}
+		return ro.NewSubscription(func() { released.Store(true) })
+	}
+	sub := mk()
+	arrived, release := sched.Park("subscription.unsub.unlocked", 1)
+	defer sched.ClearParks()
+	unsubDone := make(chan struct{})
+	go func() { defer close(unsubDone); defer func() { recover() }(); sub.Unsubscribe() }()
+	select {
+	case <-arrived:
+	case <-time.After(10 * time.Second):
+		return driver.Result{Verdict: driver.Inconclusive, Key: "park-not-reached", Dirty: true}
+	}
+	waitDone := make(chan struct{})
+	var releasedAtReturn atomic.Bool
+	go func() { defer close(waitDone); sub.Wait(); releasedAtReturn.Store(released.Load()) }()
+	early := false
+	select {
+	case <-waitDone:
+		early = true
+	case <-time.After(20 * time.Millisecond): // Wait is (still) blocked: as it must be
+	}
+	release()
+	<-unsubDone
+	st, _, _ := quiesce.Call(func() { <-waitDone }, 10*time.Second)
+	res.Events = 3
+	res.Sample = map[string]any{"primitive": c.Get("what"), "wait_returned_while_finalizers_pending": early, "released_when_wait_returned": releasedAtReturn.Load()}
+	switch {
+	case st != quiesce.Returned:
+		res.Verdict, res.Key, res.Dirty = driver.Violated, "C15/subscription/wait-never-returns-after-unsubscribe", true
+		res.Msg = "Wait() started while Unsubscribe was running its finalizers never returned"
+	case early || !releasedAtReturn.Load():
+		res.Verdict, res.Key = driver.Violated, "C15/subscription/wait-returns-before-release-finished"
+		res.Msg = fmt.Sprintf("%s: Unsubscribe is held (hook point subscription.unsub.unlocked) after marking the subscription closed and before running its finalizers; Wait() called meanwhile returned although the teardown had not run - an operator that waits for the previous attempt this way subscribes the next one before the previous one is released", c.Get("what"))
+	}
+	return res
+}
+
 func runCase(c driver.Case) driver.Result {
 	rec.ResetHooks()
+	if c.Get("op") == "primitive" {
+		return runPrimitive(c)
+	}
 	op, cfg := c.Get("op"), c.Get("cfg")
 	at := strings.Split(c.Get("attempts"), "|")
 	async := c.Get("async") == "true"
@@ -351,7 +410,18 @@ func runCase(c driver.Case) driver.Result {
 	r := rec.New(op)
 	var parkedAt atomic.Int64
 	if pk := c.Get("park"); pk != "" {
-		arrived, release := sched.Park("subscriber.terminal.unlocked", c.Int("park"))
+		point := "subscriber.terminal.unlocked"
+		if pp := c.Get("parkpoint"); pp != "" {
+			point = pp
+		}
+		arrived, release := sched.Park(point, c.Int("park"))
+		if c.Get("parkpoint") != "" {
+			// the operator gets the subscription back only when the attempt's goroutine already sits
+			// inside the release of that subscription
+			for _, s := range sources {
+				s.HoldSubscribe = arrived
+			}
+		}
 		defer sched.ClearParks()
 		go func() {
 			<-arrived
